@@ -151,7 +151,15 @@ def member_extents(F, S):
     want = ("called", NS + "FileReader::Seek", (("mem", ("idx", ("mem", ("this",), "m_IndexEntries"), idx_t(fn)), "dataBlockOffset"),))
     n += 1
     req = "an absolute Seek(m_IndexEntries[index].dataBlockOffset) dominates the block-header read"
-    if want in site:
+    def _res(t):
+        for _ in range(4):
+            t2 = fn.through_locals_at(t, reads[0]["id"])
+            if t2 == t:
+                break
+            t = t2
+        return t
+    seek_ok = want in site or any(f[0] == "called" and f[1] == want[1] and len(f[2]) == 1 and _res(f[2][0]) == want[2][0] for f in site)
+    if seek_ok:
         out.append(ok("R-MUSTCALL", VOL + "::GetSectionHeader#seek-first", fn.loc(reads[0]["id"]), fn.qn, req, "seek dominates read"))
     else:
         out.append(bad("R-MUSTCALL", VOL + "::GetSectionHeader#seek-first", fn.loc(reads[0]["id"]), fn.qn, req,
